@@ -98,7 +98,7 @@ def check(prog) -> Dict[str, Any]:
 
 
 EPR_KINDS = ["create_keep", "recv_keep", "create_measure", "recv_measure", "recv_keep_seq", "create_keep_seq", "create_keep_minfid", "recv_keep_minfid", "recv_rsp", "create_rsp",
-             "array_undefine"]
+             "array_undefine", "create_context", "recv_context"]
 
 
 @st.composite
@@ -129,7 +129,17 @@ def check_epr(case) -> Dict[str, Any]:
     for i, (k, n) in enumerate(case["epr_ops"]):
         try:
             role = "create" if k.startswith("create") else "recv"
-            if k == "array_undefine":
+            if k in ("create_context", "recv_context"):
+                if case["hardware"] == "nv":
+                    n = 1  # >=2 pairs on NV hardware never completes (the ids array names a pre-allocated memory qubit; C10's open finding)
+                with getattr(sock, k)(number=n) as (q, pair):
+                    q.measure(future=out.get_future_index(pair))
+                stack.expect(role, "K", n)
+                # the body consumed every pair; the qubit handles made for the context stay on the connection's active list
+                # (C09's open finding): release them through the public `active` setter so that this check is only about registers
+                for h in list(conn.active_qubits):
+                    h.active = False
+            elif k == "array_undefine":
                 # not an EPR operation, but the building block of the retry loops below: a completed array operation
                 out.undefine()
             elif k in ("create_keep", "recv_keep", "create_keep_minfid", "recv_keep_minfid", "recv_rsp"):
